@@ -100,13 +100,6 @@ func TestC15(t *testing.T) {
 				}
 				p, err := pipeline.Parse(strings.NewReader(sb.String()))
 				cases++
-				if ty == "7" {
-					// a non-string type is a hard error for the step, which makes it an unknown step... or fails the parse
-					if err == nil {
-						fail("type: 7 accepted silently\n%s", sb.String())
-					}
-					continue
-				}
 				if err != nil && !warning.Is(err) {
 					fail("Parse failed: %v\n%s", err, sb.String())
 					continue
